@@ -6,7 +6,7 @@
    lookup times, ANY contents of the legacy registry and of cloud control, and ANY schedule.
    The scripts may contain the environment event "the clock passes the counter key's deadline" (OResetCounter) anywhere.
    Variant proved: the repaired removal path (removeMappingKeys), an atomic Incr, and the repaired generateMappingID
-   (the counter key is created without a deadline before Incr, so it can never vanish); the pinned DeleteMapping, the
+   (the counter key is created without a deadline before Incr, so it can never vanish), index entry removed before the record; the pinned DeleteMapping, the
    former get-then-set Incr of hybrid.Storage and the pinned generateMappingID (counter with the 24 h default TTL) are
    refuted below.
    Ghost log: EvClaim n i c  = SetNX on the index of n succeeded for mapping i of client c;
@@ -22,7 +22,7 @@ Local Open Scope N_scope.
 Theorem C19_single_owner :
   forall (reg cloud : name -> option pmap) (ts : list thr) (sched : list nat),
   (forall t, In t ts -> fresh_thr t) ->
-  let s := drun true true true reg cloud empty_store ts sched in
+  let s := drun true true true true reg cloud empty_store ts sched in
   (forall n, idx (fst s) n = holder n (log (fst s))) /\
   (forall l1 l2 n i c, log (fst s) = l1 ++ EvClaim n i c :: l2 -> holder n l2 = None) /\
   (forall l1 l2 n i c, log (fst s) = l1 ++ EvRelease n i c :: l2 -> holder n l2 = Some i /\ In (EvClaim n i c) l2) /\
@@ -37,7 +37,7 @@ Print Assumptions C19_single_owner.
 Theorem C19_routes_to_owner_or_rejects :
   forall (reg cloud : name -> option pmap) (ts : list thr) (sched : list nat),
   (forall t, In t ts -> fresh_thr t) ->
-  let s := drun true true true reg cloud empty_store ts sched in
+  let s := drun true true true true reg cloud empty_store ts sched in
   forall t h i c tg, In t (snd s) -> In (RRouted 1 h i c tg) (out t) ->
   In (EvClaim (extractDomain h) i c) (log (fst s)) /\ In (EvWrite i c tg) (log (fst s)) /\
   (forall n' c', In (EvClaim n' i c') (log (fst s)) -> n' = extractDomain h /\ c' = c).
@@ -49,7 +49,7 @@ Print Assumptions C19_routes_to_owner_or_rejects.
 Theorem C19_lookup_at_any_time :
   forall (reg cloud : name -> option pmap) (ts : list thr) (sched : list nat),
   (forall t, In t ts -> fresh_thr t) ->
-  let s := drun true true true reg cloud empty_store ts sched in
+  let s := drun true true true true reg cloud empty_store ts sched in
   forall h now h' i c tg, lookup_now reg cloud (fst s) h now = RRouted 1 h' i c tg ->
   h' = h /\ holder (extractDomain h) (log (fst s)) = Some i /\
   In (EvClaim (extractDomain h) i c) (log (fst s)) /\ In (EvWrite i c tg) (log (fst s)) /\
@@ -63,7 +63,7 @@ Theorem C19_only_owner_deletes :
   forall (reg cloud : name -> option pmap) t s r rest m fs,
   pc t = Idle -> ops t = ODelete r :: rest -> next_fault t = (false, fs) ->
   recs s (resolve t r) = Some m -> r_client m <> cl t ->
-  dstep true true true reg cloud t s = (finish t fs (RErr EForbidden), s).
+  dstep true true true true reg cloud t s = (finish t fs (RErr EForbidden), s).
 Proof. exact foreign_delete_refused. Qed.
 Print Assumptions C19_only_owner_deletes.
 
@@ -75,7 +75,7 @@ Print Assumptions C19_only_owner_deletes.
 Theorem C19_real_clients_only :
   forall (reg cloud : name -> option pmap) (ts : list thr) (sched : list nat),
   (forall t, In t ts -> fresh_thr t) ->
-  let s := drun true true true reg cloud empty_store ts sched in
+  let s := drun true true true true reg cloud empty_store ts sched in
   (forall n i c, In (EvClaim n i c) (log (fst s)) -> (0 < c)%Z) /\
   (forall n i c, In (EvRelease n i c) (log (fst s)) -> (0 < c)%Z) /\
   (forall i r, recs (fst s) i = Some r -> (0 < r_client r)%Z).
@@ -85,18 +85,18 @@ Print Assumptions C19_real_clients_only.
 Theorem C19_unbound_caller_cannot_delete :
   forall (reg cloud : name -> option pmap) (ts : list thr) (sched : list nat),
   (forall t, In t ts -> fresh_thr t) ->
-  let s := drun true true true reg cloud empty_store ts sched in
+  let s := drun true true true true reg cloud empty_store ts sched in
   forall t r rest m fs,
   pc t = Idle -> ops t = ODelete r :: rest -> next_fault t = (false, fs) ->
   recs (fst s) (resolve t r) = Some m -> (cl t <= 0)%Z ->
-  dstep true true true reg cloud t (fst s) = (finish t fs (RErr EForbidden), fst s).
+  dstep true true true true reg cloud t (fst s) = (finish t fs (RErr EForbidden), fst s).
 Proof. intros reg cloud ts sched H s t r rest m fs. exact (reach_unbound_delete_refused reg cloud ts sched H t r rest m fs). Qed.
 Print Assumptions C19_unbound_caller_cannot_delete.
 
 Theorem C19_unbound_caller_cannot_create :
   forall (reg cloud : name -> option pmap) t s sub base tgt fs,
   pc t = PCIncr sub base tgt -> next_fault t = (false, fs) -> (cl t <= 0)%Z ->
-  dstep true true true reg cloud t s = (finish t fs (RErr EValidation), exec (AIncr (cl t) (full_domain sub base)) s).
+  dstep true true true true reg cloud t s = (finish t fs (RErr EValidation), exec (AIncr (cl t) (full_domain sub base)) s).
 Proof. exact unbound_create_refused. Qed.
 Print Assumptions C19_unbound_caller_cannot_create.
 
@@ -106,14 +106,14 @@ Print Assumptions C19_unbound_caller_cannot_create.
 Theorem C19_cleanup_only_removes_expired :
   forall (reg cloud : name -> option pmap) t s now i rest acc m fs,
   pc t = PCClScan now (i :: rest) acc -> next_fault t = (false, fs) -> recs s i = Some m -> is_expired m now = false ->
-  dstep true true true reg cloud t s = (cl_scan_next t fs now rest acc, s).
+  dstep true true true true reg cloud t s = (cl_scan_next t fs now rest acc, s).
 Proof. exact cleanup_skips_unexpired. Qed.
 Print Assumptions C19_cleanup_only_removes_expired.
 
 Theorem C19_cleanup_acts_as_owner :
   forall (reg cloud : name -> option pmap) t s i c rest cnt m fs,
   pc t = PCClDGet ((i, c) :: rest) cnt -> next_fault t = (false, fs) -> recs s i = Some m -> r_client m <> c ->
-  dstep true true true reg cloud t s = (cl_del t fs rest cnt, s).
+  dstep true true true true reg cloud t s = (cl_del t fs rest cnt, s).
 Proof. exact cleanup_acts_as_owner. Qed.
 Print Assumptions C19_cleanup_acts_as_owner.
 
@@ -123,13 +123,13 @@ Print Assumptions C19_cleanup_acts_as_owner.
 Theorem C19_deleted_stops_routing_and_is_reclaimable :
   forall (reg cloud : name -> option pmap) (ts : list thr) (sched : list nat),
   (forall t, In t ts -> fresh_thr t) ->
-  let s := drun true true true reg cloud empty_store ts sched in
+  let s := drun true true true true reg cloud empty_store ts sched in
   forall n i c l, log (fst s) = EvRelease n i c :: l ->
   In (EvClaim n i c) l /\
   idx (fst s) n = None /\
   (forall h now h' i' c' tg, extractDomain h = n -> lookup_now reg cloud (fst s) h now <> RRouted 1 h' i' c' tg) /\
   (forall t i' tgt fs, pc t = PCSetNX i' n tgt -> next_fault t = (false, fs) ->
-     decide true true true reg cloud t (fst s) = (goto t fs (PCSetRec i' n tgt), AClaim n i' (cl t))).
+     decide true true true true reg cloud t (fst s) = (goto t fs (PCSetRec i' n tgt), AClaim n i' (cl t))).
 Proof. intros reg cloud ts sched H s n i c l. exact (deleted_stops_routing_and_is_reclaimable reg cloud ts sched H n i c l). Qed.
 Print Assumptions C19_deleted_stops_routing_and_is_reclaimable.
 
@@ -148,13 +148,39 @@ Theorem C19_owner_delete_completes :
 Proof. exact delete_alone. Qed.
 Print Assumptions C19_owner_delete_completes.
 
+(* (4'') ... under storage failures too.  The owner runs nothing but DeleteMapping(i), retrying as often as it likes, alone
+   on any store in which mapping i holds its name; ANY of the storage calls may fail (any fault list: every fault position
+   in the 7-call sequence, any combination, in the first attempt or in any retry), for ANY number of steps: as soon as
+   one of the deletes has reported success the index has no entry for the name (so the name is claimable, clause (4)).
+   What makes it true is the order inside removeMappingKeys — index entry first, record last; the opposite order is
+   refuted below. *)
+Theorem C19_delete_success_frees_name_under_faults :
+  forall (reg cloud : name -> option pmap) c i m o fl h k s,
+  recs s i = Some m -> r_client m = c -> idx s (r_name m) = Some i -> all_delete i o ->
+  let t := {| cl := c; ops := o; faults := fl; pc := Idle; held := h; out := [] |} in
+  In RDeleted (out (fst (solo reg cloud k t s))) -> idx (snd (solo reg cloud k t s)) (r_name m) = None.
+Proof. exact delete_success_frees_name. Qed.
+Print Assumptions C19_delete_success_frees_name_under_faults.
+
+(* and a delete that failed after releasing the index entry is finished by a fault-free retry (6 storage calls, success,
+   record gone); the retry of a delete that failed earlier is C19_owner_delete_completes *)
+Theorem C19_failed_delete_retry_completes :
+  forall (reg cloud : name -> option pmap) c i m rest h o s,
+  recs s i = Some m -> r_client m = c -> idx s (r_name m) = None -> rguard s i = false ->
+  let t := {| cl := c; ops := ODelete (Abs i) :: rest; faults := []; pc := Idle; held := h; out := o |} in
+  let '(t', s') := solo reg cloud 6 t s in
+  t' = {| cl := c; ops := rest; faults := []; pc := Idle; held := h; out := RDeleted :: o |} /\
+  idx s' (r_name m) = None /\ recs s' i = None /\ rguard s' i = false.
+Proof. exact delete_retry_completes. Qed.
+Print Assumptions C19_failed_delete_retry_completes.
+
 (* (5) inactive or expired mappings do not route: the second read of a lookup turns such a record into an error
    (FORBIDDEN when expired, UNAVAILABLE otherwise) — it neither routes nor falls through to the legacy sources;
    and "active" means status active and (no expiry or not yet past it). *)
 Theorem C19_inactive_or_expired_rejected :
   forall (reg cloud : name -> option pmap) t s h n i now m fs,
   pc t = PCLRec h n i now -> next_fault t = (false, fs) -> recs s i = Some m -> is_active m now = false ->
-  dstep true true true reg cloud t s = (finish t fs (RErr (if is_expired m now then EForbidden else EUnavailable)), s).
+  dstep true true true true reg cloud t s = (finish t fs (RErr (if is_expired m now then EForbidden else EUnavailable)), s).
 Proof. exact inactive_or_expired_step. Qed.
 Print Assumptions C19_inactive_or_expired_rejected.
 
@@ -187,7 +213,7 @@ Print Assumptions C19_host_resolves_only_to_its_own_name.
 (* pinned DeleteMapping (unconditional index delete): a repeated delete of mapping 1 racing a re-claim removes the
    NEW owner's index entry — client 2's create succeeded, its mapping 2 was never deleted, yet the name has no owner. *)
 Theorem C19_pinned_delete_reclaim_refuted :
-  let s := drun false true false none_legacy none_legacy empty_store race_threads race_sched_pinned in
+  let s := drun false true false true none_legacy none_legacy empty_store race_threads race_sched_pinned in
   map out (snd s) = [[RDeleted; RCreated 1]; [RDeleted]; [RCreated 2]; [RErr ENotFound]] /\
   recs (fst s) 2 = Some {| r_name := host_a; r_client := 2; r_target := 22; r_status := StActive; r_exp := 0 |} /\
   idx (fst s) host_a = None /\
@@ -198,7 +224,7 @@ Print Assumptions C19_pinned_delete_reclaim_refuted.
 (* Incr as get-then-set (hybrid.Storage.Incr before d88dca0): two creates of different names draw the same id, the later record
    overwrites the earlier, and the first name — claimed by client 1 — routes to client 2's target. *)
 Theorem C19_nonatomic_incr_refuted :
-  let s := drun true false false none_legacy none_legacy empty_store dup_threads dup_sched in
+  let s := drun true false false true none_legacy none_legacy empty_store dup_threads dup_sched in
   map out (snd s) = [[RCreated 1]; [RCreated 1]; [RRouted 1 host_a 1 2 22]] /\
   In (EvClaim host_a 1 1) (log (fst s)).
 Proof. exact nonatomic_incr_refuted. Qed.
@@ -207,7 +233,7 @@ Print Assumptions C19_nonatomic_incr_refuted.
 (* pinned generateMappingID: the counter is created by IncrBy with the 24 h default data TTL and never refreshed; once the
    clock passes it the key disappears and ids start again at 1 while the old record and index are still there. *)
 Theorem C19_counter_reset_refuted :
-  let s := drun true true false none_legacy none_legacy empty_store reset_threads reset_sched in
+  let s := drun true true false true none_legacy none_legacy empty_store reset_threads reset_sched in
   map out (snd s) = [[RCreated 1]; [RReset]; [RCreated 1]; [RRouted 1 host_a 1 2 22]] /\
   In (EvClaim host_a 1 1) (log (fst s)).
 Proof. exact counter_reset_refuted. Qed.
@@ -217,7 +243,7 @@ Print Assumptions C19_counter_reset_refuted.
    the first name keeps routing to its owner (the general statement is C19_routes_to_owner_or_rejects, whose scripts
    may contain the clock event) *)
 Theorem C19_counter_deadline_harmless :
-  let s := drun true true true none_legacy none_legacy empty_store reset_threads reset_sched_fixed in
+  let s := drun true true true true none_legacy none_legacy empty_store reset_threads reset_sched_fixed in
   map out (snd s) = [[RCreated 1]; [RReset]; [RCreated 2]; [RRouted 1 host_a 1 1 11]] /\
   cttl (fst s) = false /\ next (fst s) = 2.
 Proof. exact counter_reset_harmless_run. Qed.
@@ -227,9 +253,27 @@ Print Assumptions C19_counter_deadline_harmless.
 Theorem C19_counter_never_expires :
   forall (reg cloud : name -> option pmap) (ts : list thr) (sched : list nat),
   (forall t, In t ts -> fresh_thr t) ->
-  cttl (fst (drun true true true reg cloud empty_store ts sched)) = false.
+  cttl (fst (drun true true true true reg cloud empty_store ts sched)) = false.
 Proof. intros reg cloud ts sched H. exact (reach_counter_no_deadline reg cloud ts sched H). Qed.
 Print Assumptions C19_counter_never_expires.
+
+(* removeMappingKeys deleting the record BEFORE the index entry: a storage failure between the two (here: the Get of the index,
+   4th call of the removal) leaves the index entry without record; the owner's retry finds no record and reports success,
+   yet the index still holds the name — client 2's claim is refused, forever. *)
+Theorem C19_record_before_index_refuted :
+  let s := drun true true true false none_legacy none_legacy empty_store (fault_threads 3) fault_sched in
+  map out (snd s) = [[RDeleted; RErr EStorage; RCreated 1]; [RErr EExists]; [RErr ENotFound]] /\
+  idx (fst s) host_a = Some 1 /\ recs (fst s) 1 = None.
+Proof. exact record_before_index_refuted. Qed.
+Print Assumptions C19_record_before_index_refuted.
+
+(* the code's order, same callers, same fault position: the retry finishes the delete and client 2 gets the name *)
+Theorem C19_index_before_record_run :
+  let s := drun true true true true none_legacy none_legacy empty_store (fault_threads 3) fault_sched in
+  map out (snd s) = [[RDeleted; RErr EStorage; RCreated 1]; [RCreated 2]; [RRouted 1 host_a 2 2 22]] /\
+  idx (fst s) host_a = Some 2 /\ recs (fst s) 1 = None.
+Proof. exact index_before_record_run. Qed.
+Print Assumptions C19_index_before_record_run.
 
 (* ---- non-vacuity ------------------------------------------------------------------------------------------------ *)
 
@@ -242,7 +286,7 @@ Print Assumptions C19_premises_satisfiable.
 (* a history with the cleanup and with callers 0 and -1: the cleanup removes exactly client 1's expired mapping; the
    unbound callers' deletes of client 2's mapping are refused, their create is refused, client 2 keeps its name *)
 Theorem C19_cleanup_and_unbound_callers_run :
-  let s := drun true true true none_legacy none_legacy empty_store cleanup_threads cleanup_sched in
+  let s := drun true true true true none_legacy none_legacy empty_store cleanup_threads cleanup_sched in
   map out (snd s) = [[RUpdated; RCreated 1]; [RCreated 2]; [RErr EValidation; RCleaned 1; RErr EForbidden];
                      [RDeleted; RErr EForbidden]; [RRouted 1 (full_domain nm_b nm_base) 2 2 22; RErr ENotFound]] /\
   idx (fst s) host_a = None /\ idx (fst s) (full_domain nm_b nm_base) = Some 2 /\ recs (fst s) 1 = None /\
@@ -251,7 +295,7 @@ Proof. exact cleanup_run. Qed.
 Print Assumptions C19_cleanup_and_unbound_callers_run.
 
 Theorem C19_repaired_run :
-  let s := drun true true true none_legacy none_legacy empty_store race_threads race_sched_fixed in
+  let s := drun true true true true none_legacy none_legacy empty_store race_threads race_sched_fixed in
   map out (snd s) = [[RDeleted; RCreated 1]; [RDeleted]; [RCreated 2]; [RRouted 1 host_a_port 2 2 22]] /\
   idx (fst s) host_a = Some 2 /\
   stale_release (log (fst s)) = false.
